@@ -166,6 +166,10 @@ def classify(pspec, backend: str, detail: str, data=None) -> str:
         trace: List[Any] = []
         ops = C.build(pspec, trace=trace)
         st = sem.analyse_sql_structure(ops)
+        if wide and st.table_star and st.raise_kind is None and set(got) - set(declared) == {C.EXTRA_COL} and not (set(declared) - set(got)):
+            # the generated SQL is `SELECT * FROM <table>` (possibly under ORDER BY / LIMIT): columns of the
+            # database table that the TableDescription does not declare come back in the result
+            return "%s:sql_model.SQLModel.table_def_to_near_sql:undeclared-table-column-through-select-star" % PID
         if st.select_ignored and st.raise_kind is None:
             conv = [n for n in trace if n.node_name == "ConvertRecordsNode"]
             if conv and got == list(conv[-1].column_names):
